@@ -107,11 +107,19 @@ pub fn minimise(case: Box<dyn Case>, key: &str, max_exec: usize) -> (Box<dyn Cas
     let mut cur = case;
     let mut path = vec![];
     let mut execs = 0;
+    let t0 = Instant::now();
     'outer: loop {
         let cands = cur.shrink();
         for (i, c) in cands.into_iter().enumerate() {
-            if execs >= max_exec {
+            // bounded in executions and in wall time (long simulated runs); the parent's watchdog is
+            // told that this worker is alive
+            if execs >= max_exec || t0.elapsed() > Duration::from_secs(90) {
                 break 'outer;
+            }
+            {
+                let mut o = std::io::stdout().lock();
+                let _ = writeln!(o, "H");
+                let _ = o.flush();
             }
             execs += 1;
             let v = c.execute();
